@@ -4,7 +4,7 @@
                             quiescent  |  S: per received message: delivered ok expect ws reply;
                             then the guard (no delivered built-in raises)  |  what runs per message
      enabled <cfg> <evs> -> the internal events that are enabled in the state reached, quiescent
-   cfg      = attempts raises tokens
+   cfg      = attempts raises tokens extras       (extras: names after "u/" of the built-ins the protocol class adds)
               attempt = kind(0 feature,1 command) name(str) async params hints thr fid
               params  = 0 | 1 is_ls annot(0 none,1 server,2 other);  thr = 0 none | 1 above | 2 below
               hints   = typing.get_type_hints succeeds on the callable (Model.Dispatch.gsig)
@@ -40,7 +40,8 @@ let next_cfg () =
   let ats = read_list next_attempt in
   let rs = read_list next_n in
   let tk = read_list next_n in
-  { c_reg = registry_of ats; c_raises = rs; c_tokens = tk; c_asks = !asks }
+  let ex = read_list next_str in
+  { c_reg = registry_of ats; c_raises = rs; c_tokens = tk; c_asks = !asks; c_extra = ex }
 let next_call () = match next_int () with
   | 0 -> let i = next_n () in let f = read_list next_n in CInitialize (i, f)
   | 1 -> CInitialized
